@@ -256,6 +256,8 @@ class Ctx:
             "broken": self.broken,
         }
         os.makedirs(os.path.join(VERIF, "evidence"), exist_ok=True)
+        if os.environ.get("VERIF_NO_EVIDENCE"):
+            return
         with open(os.path.join(VERIF, "evidence", self.pid + ".json"), "w") as f:
             json.dump(ev, f, indent=1)
 
